@@ -39,7 +39,8 @@ def build_vcf(path, pattern, file_index, ploidy=2, chroms=("chr1",), multi_idx=(
             pos = 50 + 30 * i
             ref, alt = seq[pos], [synth.other_base(seq[pos])]
             if i in multi_idx:
-                alt.append(synth.other_base(seq[pos], 2))
+                nalt = multi_idx[i] if isinstance(multi_idx, dict) else 2
+                alt += [synth.other_base(seq[pos], x) for x in range(2, nalt + 1)]
             if isinstance(k, tuple):
                 s, alleles = k
                 if s == "u":
@@ -254,7 +255,7 @@ def judge_pairdiff(inst):
     p0, p1 = inst["p"]
     d = _dir()
     paths = [os.path.join(d, "d0.vcf"), os.path.join(d, "d1.vcf")]
-    multi = tuple(i for i in range(len(p0)) if any("2" in k[1:] for k in (p0[i], p1[i])))
+    multi = {i: (3 if any("3" in k[1:] for k in (p0[i], p1[i])) else 2) for i in range(len(p0)) if any(set("23") & set(k[1:]) for k in (p0[i], p1[i]))}
     build_vcf(paths[0], [p0], 0, multi_idx=multi)
     build_vcf(paths[1], [p1], 1, multi_idx=multi)
     try:
@@ -345,13 +346,21 @@ def judge_gen(inst):
     nf, chroms = len(files), ["chr1", "chr2", "chr3"][: len(files[0])]
     d = _dir()
     paths = []
+    # "spell": (position index, (lo, hi)) - at that variant every file is heterozygous over the alleles lo / hi of a
+    # two-ALT record; the oracle works on the binary patterns (lo -> 0, hi -> 1)
+    spell = inst.get("spell")
     for i, pats in enumerate(files):
         paths.append(os.path.join(d, f"g{i}.vcf"))
-        build_vcf(paths[-1], pats, i, chroms=chroms)
+        if spell:
+            m_, (lo, hi) = spell
+            vp = [[(k[0] + {"0": lo, "1": hi}[k[1]] + {"0": lo, "1": hi}[k[2]]) if j == m_ else k for j, k in enumerate(ch)] for ch in pats]
+            build_vcf(paths[-1], vp, i, chroms=chroms, multi_idx=(m_,))
+        else:
+            build_vcf(paths[-1], pats, i, chroms=chroms)
     viols = []
 
     def V(clause, detail):
-        return {"clause": clause, "signature": "c11:" + clause, "detail": detail + f" (files x chromosomes {files})", "instance": inst}
+        return {"clause": clause, "signature": "c11:" + clause + (":multi-allelic" if spell else ""), "detail": detail + f" (files x chromosomes {files}" + (f", variant {spell[0]} spelled over the alleles {spell[1]}" if spell else "") + ")", "instance": inst}
 
     try:
         res = run_tool(paths, multiway=nf > 2)
@@ -425,12 +434,13 @@ def judge_poly(inst):
     ploidy, p0, p1 = inst["ploidy"], inst["p"][0], inst["p"][1]
     d = _dir()
     paths = [os.path.join(d, "q0.vcf"), os.path.join(d, "q1.vcf")]
-    build_vcf(paths[0], [[("A", tuple(a)) for a in p0]], 0, ploidy)
-    build_vcf(paths[1], [[("A", tuple(a)) for a in p1]], 1, ploidy)
+    multi = tuple(range(len(p0))) if inst.get("two_alts") else ()
+    build_vcf(paths[0], [[("A", tuple(a)) for a in p0]], 0, ploidy, multi_idx=multi)
+    build_vcf(paths[1], [[("A", tuple(a)) for a in p1]], 1, ploidy, multi_idx=multi)
     viols = []
 
     def V(clause, detail):
-        return {"clause": clause, "signature": "c11:poly-" + clause, "detail": detail + f" ({p0} vs {p1})", "instance": inst}
+        return {"clause": clause, "signature": "c11:poly-" + clause + (":multi-allelic" if multi else ""), "detail": detail + f" ({p0} vs {p1})", "instance": inst}
 
     try:
         res = run_tool(paths, ploidy=ploidy)
@@ -667,6 +677,23 @@ def space(tier):
                     p0 = rest0[:mpos] + ["A" + g0] + rest0[mpos:]
                     p1 = rest1[:mpos] + ["A" + g1] + rest1[mpos:]
                     yield {"kind": "pairdiff", "p": [p0, p1]}
+    # three ALT alleles: different heterozygous genotypes whose allele indices have the same sum (0|3 vs 1|2)
+    for mpos in range(3):
+        for g0, g1 in itertools.product(["03", "30", "12", "21", "13", "31", "02", "20"], repeat=2):
+            if set(g0) == set(g1):
+                continue
+            for b1 in itertools.product((0, 1), repeat=2):
+                rest1 = ["A01" if not bit else "A10" for bit in b1]
+                yield {"kind": "pairdiff", "p": [["A01"] * mpos + ["A" + g0] + ["A01"] * (2 - mpos), rest1[:mpos] + ["A" + g1] + rest1[mpos:]]}
+    # three files, one block of three variants, one of them heterozygous over the alleles 1/2 (0/2) of a two-ALT record
+    # in every file (the tables of a file are used in two pairwise comparisons)
+    tri = [tuple("A" + str(a) + str(1 - a) for a in h) for h in itertools.product((0, 1), repeat=3)]
+    for a in tri[:4]:
+        for b in tri:
+            for c in tri:
+                for m_ in range(3):
+                    for lohi in (("1", "2"),) + ((("0", "2"),) if T else ()):
+                        yield {"kind": "gen", "files": [[list(a)], [list(b)], [list(c)]], "spell": [m_, list(lohi)]}
     # label invariance, explicitly
     inv = [s for s in itertools.product(KINDS[1:], repeat=3) if canonical(s)]
     for p0 in inv:
@@ -742,6 +769,16 @@ def space(tier):
         firsts = firsts[:: max(1, len(firsts) // (60 if T else 20))]
         for p0 in firsts:
             yield {"kind": "polyfn", "ploidy": ploidy, "p0": [list(a) for a in p0], "dosage_variants": False}
+    # polyploid through the files with two-ALT records: every column over the alleles 0/1/2 against every other one
+    # (also different genotypes with the same sum of allele indices, 0|0|2 vs 0|1|1)
+    for ploidy, n in ((3, 2),) + (((3, 3),) if T else ()):
+        cols = [c for c in itertools.product((0, 1, 2), repeat=ploidy) if len(set(c)) >= 2]
+        firsts = [c for c in cols if tuple(sorted(c)) == c]
+        for f0 in itertools.product(firsts, repeat=n):
+            for p1 in itertools.product(cols, repeat=n):
+                if not T and (cols.index(p1[0]) + 2 * cols.index(p1[-1]) + firsts.index(f0[0])) % 3:
+                    continue
+                yield {"kind": "poly", "ploidy": ploidy, "two_alts": True, "p": [[list(a) for a in f0], [list(a) for a in p1]]}
     # polyploid, one block, through the files (binds the command line to compare_block)
     for ploidy, nmax in ((3, 3), (4, 2)) + (((3, 4), (4, 3)) if T else ()):
         arr = []
